@@ -1105,7 +1105,7 @@ def gen_cases(ctx):
         elif m == 3:
             kind_sets = [[k, k, 'plain'] for k in (('plain',) if amb else ('plain', 'args', 'chained'))]
         else:
-            kind_sets = [['plain', 'args', 'plain'], ['args', 'plain', 'plain']]
+            kind_sets = [['plain', 'args', 'plain']]
         for si, s in enumerate(seqs(m)):
             if amb and m == 3 and si % 3 != ctx.seed % 3:
                 continue                    # a third of the three-operation bodies in a child of the sweep
@@ -1269,7 +1269,7 @@ def gen_cases(ctx):
         yield {'flag': 1, 'kinds': ['plain', 'plain', 'plain'], 'path': 'file', 'sub': 1,
                'body': ['h', k, ['fc', form, acc, rais, k]]}, 'subclass'
     # 9. random bodies over the whole grammar (random call forms, loggers, root levels)
-    for _ in range((1500 if amb else 4000) if ctx.quick else 150000):
+    for _ in range((1500 if amb else 4000) if ctx.quick else 80000):
         body = random_body(rng, rng.randrange(1, 10))
         yield {'flag': rng.randrange(2), 'kinds': [rng.choice(KINDS) for _ in range(3)],
                'path': rng.choice(PATHS), 'body': body, 'lg': rng.choice(LOGGERS),
